@@ -15,13 +15,9 @@ Definition TBfin (x : tlocal * rcode) (H : list hold) (K : bool) : Prop :=
   TB (fst x) H K /\ (stops (snd x) = true -> H = []).
 
 Section A.
-Variables (nl : nat) (rk : lock -> nat).
-Notation wp := (wp nl rk).
+Variable bl : list hold -> lock -> Prop.
+Notation wp := (wp bl).
 Implicit Types (Qr : val -> post) (Qt QF : post) (H : list hold) (K : bool).
-
-(* what the scenario has to provide: every collection is an acquirable root whose blocking acquisitions ascend *)
-Definition env_ok (e : env) : Prop :=
-  forall c s, coll e c = Some s -> acquirable s = true /\ forall m, alg_ok nl rk m (alg_of (e_am e) s).
 
 (* ---------------------------------------------------------------- pieces *)
 Lemma wp_see_all ps H K Qr Qt QF : Qr VUnit H K -> wp (see_all ps) H K Qr Qt QF.
@@ -133,6 +129,19 @@ Proof.
 Qed.
 
 
+End A.
+
+Section B.
+(* the blocking condition may depend on the call that is running *)
+Variable blk : apiop -> list hold -> lock -> Prop.
+Implicit Types (Qr : val -> post) (Qt QF : post) (H : list hold) (K : bool).
+
+(* what the scenario has to provide: every collection is an acquirable root whose blocking acquisitions satisfy the
+   condition of the call that makes them *)
+Definition env_ok (e : env) : Prop :=
+  forall c s, coll e c = Some s ->
+    acquirable s = true /\ forall m f, alg_ok (blk (AAcquire c m f)) m (alg_of (e_am e) s).
+
 Lemma tb_key lc H K : TB lc H K -> haskey lc = true -> guard lc = None /\ H = [] /\ K = true.
 Proof.
   unfold TB. destruct (guard lc); intros T Hk.
@@ -158,9 +167,9 @@ Ltac fin_nostop := split; [|cbn [snd stops]; intros X; discriminate X].
 
 Lemma api_wp e lc o p H K :
   env_ok e -> TB lc H K -> o <> AGuardForget -> api_prog e lc o = Some p ->
-  wp p H K (fun v H' K' => TBfin (api_fin e lc o (ODone v)) H' K')
-           (fun H' K' => TBfin (api_fin e lc o OPanic) H' K')
-           (fun H' K' => TBfin (api_fin e lc o OFuel) H' K').
+  Wp.wp (blk o) p H K (fun v H' K' => TBfin (api_fin e lc o (ODone v)) H' K')
+                      (fun H' K' => TBfin (api_fin e lc o OPanic) H' K')
+                      (fun H' K' => TBfin (api_fin e lc o OFuel) H' K').
 Proof.
   intros EO T NF E. destruct o as [| | |c m f| | | |pos|pos| |c|c|c]; cbn [api_prog] in E.
   - (* AKeyGet *) injection E as <-. cbn [Wp.wp]. cbn [api_fin]. fin_nostop. cbn [fst].
@@ -176,7 +185,7 @@ Proof.
   - (* AAcquire *)
     destruct (coll e c) as [s|] eqn:Ec; [|discriminate]. destruct (haskey lc) eqn:Hk; [|discriminate].
     destruct (tb_key lc H K T Hk) as [G [EH EK]]. subst H K.
-    destruct (EO c s Ec) as [ACQ AOK]. specialize (AOK m).
+    destruct (EO c s Ec) as [ACQ AOK]. specialize (AOK m f).
     assert (FUEL : forall f', TBfin (api_fin e lc (AAcquire c m f') OFuel) [] true).
     { intros f'. cbn [api_fin]. split; [|reflexivity]. cbn [fst]. destruct f'; cbn [is_lent]; apply tb_none; auto. }
     destruct f as [| |lent body|lent body]; injection E as <-.
@@ -213,10 +222,10 @@ Proof.
   - (* AGuardForget *) contradiction.
   - (* AGuardRead *) destruct (guard lc) as [g|] eqn:G; [|discriminate]. injection E as <-.
     destruct (tb_guard lc g H K T G) as [PG _].
-    apply (wp_cs_prog (g_mode g) (g_items g) (CRead pos)); [now apply covers_perm|intros v|]; cbn [api_fin]; fin_nostop; exact T.
+    apply (wp_cs_prog _ (g_mode g) (g_items g) (CRead pos)); [now apply covers_perm|intros v|]; cbn [api_fin]; fin_nostop; exact T.
   - (* AGuardWrite *) destruct (guard lc) as [g|] eqn:G; [|discriminate]. injection E as <-.
     destruct (tb_guard lc g H K T G) as [PG _].
-    apply (wp_cs_prog (g_mode g) (g_items g) (CWrite pos)); [now apply covers_perm|intros v|]; cbn [api_fin]; fin_nostop; exact T.
+    apply (wp_cs_prog _ (g_mode g) (g_items g) (CWrite pos)); [now apply covers_perm|intros v|]; cbn [api_fin]; fin_nostop; exact T.
   - (* APanic *) destruct (guard lc) as [g|] eqn:G; injection E as <-; cbn [Wp.wp].
     + destruct (tb_guard lc g H K T G) as [P [Hk Kt]]. apply wp_with_key. apply wp_drop_items.
       unfold ghold in P. rewrite (rel_all_perm_nil _ _ P). cbn [Wp.wp api_fin]. fin_nostop. cbn [fst]. apply tb_none; [reflexivity|discriminate].
@@ -230,4 +239,4 @@ Proof.
     apply wp_fmt_list. intros n. cbn [api_fin]. fin_nostop. exact T.
 Qed.
 
-End A.
+End B.
